@@ -2,7 +2,7 @@
 # usage: keep_seed.sh <seed-id> <worktree-name>   store an agent's change under seeded/<id>, confirm the demo both ways, run the checks
 id=$1; wt=/tmp/wt-$2; d=/verif/seeded/$id
 mkdir -p $d
-(cd $wt/_demo && for f in *; do case $f in check.*|make*|build*|_build*|librebuild*|work|*.log|demo_with*|FOREIGN*|with_*|without_*) ;; *) cp -r $f $d/;; esac; done)
+(cd $wt/_demo && for f in *; do case $f in check.log|check.exit|check.rc|make*|build*|_build*|librebuild*|work|*.log|demo_with*|FOREIGN*|with_*|without_*) ;; *) cp -r $f $d/;; esac; done)
 git -C $wt diff -- aldor > $d/patch.diff
 echo "diffstat: $(git -C $wt diff --stat -- aldor | tail -1)"
 echo "suite: PASS=$(grep -c '^PASS' $wt/_demo/check.log) FAIL=$(grep -cE '^(FAIL|ERROR)' $wt/_demo/check.log) probe-refs=$(grep -c wt-probe $wt/_demo/check.log)"
